@@ -74,6 +74,9 @@ structure Hist where
   brokerAccepted : Bool := false      -- ... and the broker answered CONNACK 0 after it
   clientConnacked : Bool := false     -- the client was told CONNACK accepted
   asleep : Bool := false              -- between the ack of DISCONNECT(d>0) and the next wake-up
+  /-- the same fact read off the two links alone, not off the handler's own state: the client has been told
+      DISCONNECT in answer to its DISCONNECT(duration > 0) and has not been sent a CONNACK since -/
+  protoAsleep : Bool := false
   ended : Bool := false
   /-- topic IDs the gateway bound, with the name: (id, name) -/
   bound : List (UInt16 × Bytes) := []
@@ -156,7 +159,11 @@ def Hist.afterStep (h : Hist) (s : Step) : Hist :=
           { h with gwRegisters := (mid, tid, name) :: h.gwRegisters.erase (mid, tid, name) }
         | _ => h) h
     | .sn b => (match decode b with
-      | .ok (_, .connack rc) => if rc == 0 then { h with clientConnacked := true } else h
+      | .ok (_, .disconnect 0) =>
+        (match s.snIn with
+          | some (.disconnect d) => if d != 0 then { h with protoAsleep := true } else h
+          | _ => h)
+      | .ok (_, .connack rc) => if rc == 0 then { h with clientConnacked := true, protoAsleep := false } else h
       | .ok (_, .regack tid mid rc) =>
         if rc == 0 then
           match h.pendingRegister.lookup mid with
@@ -624,7 +631,9 @@ def c11 (tr : List TE) : List Viol :=
         else []
       | _ =>
         let connackIn := match s.mqIn with | some (.connack _) => true | _ => false
-        if h.asleep && !sent.isEmpty && !s.hasEnded && !connackIn then
+        -- (asleep by the handler's own account, or by the protocol: a gateway that forgets that the client
+        -- went back to sleep after its PINGRESP must not get away with it)
+        if (h.asleep || h.protoAsleep) && !sent.isEmpty && !s.hasEnded && !connackIn then
           [{ sig := "datagram-sent-to-sleeping-client", detail := s!"t={s.t}" }]
         else []
     -- timers must not send to a sleeping client either
